@@ -22,7 +22,12 @@ def rand_rot(r):
 
 
 def make_rod(r, n, dim):
-    rod = ea.CosseratRod.straight_rod(n, np.zeros(3), np.array([1.0, 0, 0]), np.array([0, 0, 1.0]), 1.0, 0.05, 1000.0,
+    # planar rods: the normal d1 may be +z, -z or lie IN the plane (then d2 = +-z carries the planar spin): the director
+    # convention is the user's choice, every shipped example happens to use +z
+    normal = np.array([0, 0, 1.0])
+    if dim == 2:
+        normal = [np.array([0, 0, 1.0]), np.array([0, 0, -1.0]), np.array([0, 1.0, 0]), np.array([0, -1.0, 0])][int(r.integers(0, 4))]
+    rod = ea.CosseratRod.straight_rod(n, np.zeros(3), np.array([1.0, 0, 0]), normal, 1.0, 0.05, 1000.0,
                                       youngs_modulus=1e6, shear_modulus=4e5)
     return rod
 
@@ -39,7 +44,10 @@ def perturb_rod(r, rod, dim):
             # planar frames: d3 = tangent in plane, d1 = z? keep a proper rotation about z composed with the initial frame
             Rz = np.array([[np.cos(th), -np.sin(th), 0], [np.sin(th), np.cos(th), 0], [0, 0, 1]])
             rod.director_collection[:, :, e] = rod.director_collection[:, :, e] @ Rz.T
-        rod.omega_collection[:2] = 0
+        if r.random() < 0.7:
+            # planar motion: the lab-frame angular velocity is along z, whatever the director convention
+            for e in range(n):
+                rod.omega_collection[:, e] = rod.director_collection[:, :, e] @ np.array([0.0, 0.0, r.normal()])
     else:
         for e in range(n):
             rod.director_collection[:, :, e] = rand_rot(r)
@@ -215,7 +223,11 @@ def gen_cases(seed, tier):
             Q = rand_rot(r)
             if planar:
                 th = r.uniform(0, 2 * np.pi)
-                Q = np.array([[np.cos(th), np.sin(th), 0], [-np.sin(th), np.cos(th), 0], [0, 0, 1]])
+                c_, s_ = np.cos(th), np.sin(th)
+                if r.random() < 0.5:
+                    Q = np.array([[c_, s_, 0], [-s_, c_, 0], [0, 0, 1]])
+                else:   # cylinder axis along -z (rows d1, d2, d3 = d1 x d2)
+                    Q = np.array([[c_, s_, 0], [s_, -c_, 0], [0, 0, -1.0]])
                 body.omega_collection[:2, 0] = 0
             body.director_collection[:, :, 0] = Q
 
